@@ -50,12 +50,14 @@ import (
 	"encoding/json"
 	"errors"
 	"fmt"
+	"os"
 	"strings"
 	"testing"
 	"time"
 
 	"github.com/gopcua/opcua/ua"
 	"github.com/gopcua/opcua/uacp"
+	"github.com/gopcua/opcua/uasc"
 	"pgregory.net/rapid"
 
 	"verif/pkg/chanpair"
@@ -284,7 +286,6 @@ type msgStat struct {
 	sentinel bool
 }
 
-
 func negotiated(b bufT) (c2s, s2c int) {
 	c2s, s2c = int(b.CSend), int(b.SSend)
 	if int(b.SRecv) < c2s {
@@ -473,6 +474,10 @@ func (r *runner) request(where string, x msgT, sentinel bool) *failure {
 	what := fmt.Sprintf("%s: %s (body %d bytes, maxBody %d)", where, x.Service, want, mb)
 
 	n0 := len(p.Tap.Frames())
+	// the server must be reading while the client sends: several MiB do not fit
+	// the socket buffers, and the marker below travels behind them
+	recv := make(chan *uasc.MessageBody, 1)
+	go func() { recv <- p.ServerReceive(longWait) }()
 	var res sendResult
 	select {
 	case res = <-r.sendReq(req, false):
@@ -490,6 +495,9 @@ func (r *runner) request(where string, x msgT, sentinel bool) *failure {
 	}
 	// the sender is done: once the marker has passed, the record is complete
 	settled := r.q.settle(netx.C2S, p.ClientConn)
+	if !settled {
+		rec.Class("marker-not-seen:c2s")
+	}
 	nch := 0
 	if settled {
 		var fmsg string
@@ -497,7 +505,7 @@ func (r *runner) request(where string, x msgT, sentinel bool) *failure {
 			return &failure{msg: fmt.Sprintf("%s: %s", what, fmsg)}
 		}
 	}
-	m := p.ServerReceive(longWait)
+	m := <-recv
 	if m == nil || errors.Is(m.Err, context.DeadlineExceeded) {
 		_, fmsg := r.frames(n0, netx.C2S)
 		return &failure{timeout: true, msg: fmt.Sprintf("%s: the server's Receive did not deliver it within %s; chunks on the wire: %s%s", what, longWait, orOK(fmsg), drain(p))}
@@ -591,6 +599,9 @@ func (r *runner) response(where string, x msgT, handle uint32, sentinel bool) *f
 		return &failure{msg: fmt.Sprintf("%s: SendResponseWithContext failed: %v%s", what, s.err, drain(p))}
 	}
 	settled := r.q.settle(netx.S2C, p.ServerConn)
+	if !settled {
+		rec.Class("marker-not-seen:s2c")
+	}
 	nch := 0
 	if settled {
 		var fmsg string
@@ -890,8 +901,16 @@ func TestChunking(t *testing.T) {
 	rapid.Check(t, func(t *rapid.T) {
 		c := genCase(t)
 		rec.Journal("TestChunking", c)
+		t0 := time.Now()
 		stats, fl, inconcl := judge(c)
 		rec.JournalDone("TestChunking")
+		if d := time.Since(t0); d > 10*time.Second {
+			rec.Class("slow-case:>10s")
+			if os.Getenv("VERIF_DEBUG") != "" {
+				b, _ := json.Marshal(c)
+				fmt.Printf("SLOW %s %s\n", d, b)
+			}
+		}
 		pairCount++
 		if inconcl {
 			rec.Inconclusive()
